@@ -185,7 +185,7 @@ func (s *Swarm[A, Pub]) handleMessage(ctx context.Context, src, dst A, data []by
 	}
 	gid := hdr.GroupID()
 	timeout := hdr.GetTimeout()
-	return s.fragLayer.handlePart(src, gid, partIndex, partCount, totalSize, body, func(buf []byte) error {
+	return s.fragLayer.handlePart(src, gid, hdr.IsAsk() && hdr.IsReply(), partIndex, partCount, totalSize, body, func(buf []byte) error {
 		if hdr.IsAsk() {
 			ctx, cf := context.WithDeadline(ctx, originTime.Add(timeout))
 			defer cf()
